@@ -249,6 +249,18 @@ fn judge_boot(rec: &Rec, total: u32, b: &[u8; 512]) -> Option<(String, String)> 
     if g.width == 32 && (g.backup_sector == 0 || g.fsinfo_sector == 0) {
         return Some(("C06/accepted/fat32-without-backup-or-info-sector".into(), format!("{rec:?} total {total}: backup {} info {}", g.backup_sector, g.fsinfo_sector)));
     }
+    // extended boot record: signature 0x29 (the id / label / type fields are only valid with it), the type string names
+    // the width the cluster count gives, the volume is born clean (status bits 0/1), FAT32: version 0, mirroring on
+    {
+        let (o_sig, o_type, o_status) = if g.width == 32 { (66usize, 82usize, 65usize) } else { (38, 54, 37) };
+        let want_type: &[u8; 8] = match g.width { 12 => b"FAT12   ", 16 => b"FAT16   ", _ => b"FAT32   " };
+        if b[o_sig] != 0x29 || &b[o_type..o_type + 8] != want_type || b[o_status] & 3 != 0 || (g.width == 32 && (g.fs_version != 0 || g.ext_flags & 0x80 != 0)) {
+            return Some((
+                "C06/accepted/extended-boot-record-invalid".into(),
+                format!("{rec:?} total {total}: width {} signature {:#04x} type {:?} status {:#04x} version {} flags {:#x}", g.width, b[o_sig], String::from_utf8_lossy(&b[o_type..o_type + 8]), b[o_status], g.fs_version, g.ext_flags),
+            ));
+        }
+    }
     // requested volume id / label arrive in the extended boot record
     let (o_id, o_label) = if g.width == 32 { (67usize, 71usize) } else { (39, 43) };
     if rec.vid && b[o_id..o_id + 4] != [0xFF; 4] {
